@@ -219,3 +219,225 @@ Qed.
 
 Example C10_ex_frame : nth_error (apply_changes ex_env ex_heap ex_root ex_changes) 3 = nth_error ex_heap 3.
 Proof. apply C10_apply_frame. exact C10_ex_frame_hyp. Qed.
+
+(* ======================================================================================
+   Part 2: the whole round trip (merged from the round-trip proof development)
+   ====================================================================================== *)
+(* C10 (round trip) - applying build_diff(old, new) to old yields a configuration equal to new in
+   callables, arguments, tags and sharing structure; the root (and every aligned object of old) keeps
+   its identity; nothing else is touched.
+
+   Model: DiffBuild.patch = build_diff_from_alignment + resolve_diff_references + apply_diff on one
+   heap h that holds both structures, for the alignment `al` (pairs old id / new id) the builder
+   ended with.  Graphs are compared up to C10Check.canon_node_tags (storage order of arguments,
+   dict insertion order, empty tag entries), by a one-to-one correspondence m between pointers.
+
+   Side conditions (all boolean, all evaluated on the examples below):
+     wf_b e h                  children before parents (the harness's encoding; acyclic)
+     heap_ok_b h               distinct keys in argument stores / dicts / namedtuples; no built
+                               objects (NObj / NPartialObj) in the configurations
+     alignment_ok al h ro rn   DiffBuild: one-to-one, roots aligned, same_kind for every pair
+     align_tags_ok_b al h      aligned Buildables: one tag entry per argument, named arguments only,
+                               tag sets in the harness's sorted encoding
+     old_reach_b e al h ro     every aligned old object is reachable from the old root
+   NOT needed: disjointness of the two structures (only used for "new is untouched"), reachability
+   of aligned new objects (only used for C10_patch_frame's pointer statement), and any acyclicity
+   condition on the alignment (see C10_cycle_alignment_example). *)
+From Fiddle Require Import PyBase PySlice Sig ArgStore PyCall Heap Traverse Build Build_stmt Tags History
+  Diff Lang Codegen C02Check DiffBuild C10Check Iso_proofs Copy_proofs DiffBuild_proofs.
+From Coq Require Import List Arith.
+Import ListNotations.
+Local Open Scope nat_scope.
+
+(* 1. MAIN: the patched old structure is isomorphic to the new one; the heap only grows; objects
+   that are not aligned old objects are unchanged (in particular unaligned old objects); if the two
+   structures are disjoint the whole new structure is unchanged. *)
+Theorem C10_patch_yields_new : forall e al h rold rnew,
+  wf_b e h = true ->
+  heap_ok_b h = true ->
+  alignment_ok al h rold rnew = true ->
+  align_tags_ok_b al h = true ->
+  old_reach_b e al h rold = true ->
+  exists h',
+    patch e al h rold rnew = Some h' /\
+    (exists m, bij_wf m /\
+               simulates (map canon_node_tags h') (map canon_node_tags h) m /\
+               rel_ref m rold rnew) /\
+    length h <= length h' /\
+    (forall i, i < length h -> ~ In i (map fst al) -> nth_error h' i = nth_error h i) /\
+    (disjoint_b e h rold rnew = true ->
+     forall j, Build_stmt.reach e h rnew j -> nth_error h' j = nth_error h j).
+Proof. exact DiffBuild_proofs.patch_yields_new. Qed.
+Print Assumptions C10_patch_yields_new.
+
+(* the boolean comparison the harness evaluates implies the correspondence used above *)
+Theorem C10_same_graph_sound : forall h1 r1 h2 r2,
+  same_graph h1 r1 h2 r2 = true ->
+  exists m, bij_wf m /\
+            simulates (map canon_node_tags h1) (map canon_node_tags h2) m /\
+            rel_ref m r1 r2.
+Proof. exact DiffBuild_proofs.same_graph_iso. Qed.
+Print Assumptions C10_same_graph_sound.
+
+(* 1c. the per-pair lemma behind 1: for an aligned pair, the operations _DiffFromAlignmentBuilder
+   records, applied in the five phases of _apply_changes, turn the old node into the new node with
+   its references mapped by tau (aligned -> old object, otherwise -> its copy), up to normalisation *)
+Theorem C10_node_patch_ok : forall al memo p no nn,
+  same_kind al no nn = true ->
+  node_ok_b no = true -> node_ok_b nn = true -> tags_ok_b no = true -> tags_ok_b nn = true ->
+  (forall vo vn, In vn (refs_of nn) -> aligned_or_equal al vo vn = true -> vo = tau memo vn) ->
+  canon_node_tags (apply_phases (node_changes al memo p no nn) no) =
+  canon_node_tags (map_node_refs (tau memo) nn).
+Proof. exact DiffBuild_proofs.node_patch_ok. Qed.
+Print Assumptions C10_node_patch_ok.
+
+(* 2. FRAME: the traversal only appends copies to the heap; apply_diff changes aligned old objects
+   only; every pointer a change stores is an aligned old object or a copy made by the traversal *)
+Theorem C10_patch_frame : forall e al h rold rnew,
+  wf_b e h = true ->
+  heap_ok_b h = true ->
+  alignment_ok al h rold rnew = true ->
+  align_tags_ok_b al h = true ->
+  old_reach_b e al h rold = true ->
+  exists o cs,
+    build_changes e al h rold rnew = Some (o, cs) /\
+    patch e al h rold rnew = Some (apply_changes e o rold cs) /\
+    (exists ext, o = h ++ ext) /\
+    length (apply_changes e o rold cs) = length o /\
+    (forall i, ~ In i (map fst al) -> nth_error (apply_changes e o rold cs) i = nth_error o i) /\
+    (new_reach_b e al h rnew = true ->
+     forall c k, In c cs -> change_value c = Some (RP k) ->
+                 In k (map fst al) \/ length h <= k < length o).
+Proof. exact DiffBuild_proofs.patch_frame. Qed.
+Print Assumptions C10_patch_frame.
+
+(* 2b. whatever the patched old structure reaches (through any stored reference) is an aligned old
+   object or a fresh copy: it shares no object with the new structure *)
+Theorem C10_patch_independent : forall e al h rold rnew h',
+  wf_b e h = true ->
+  heap_ok_b h = true ->
+  alignment_ok al h rold rnew = true ->
+  align_tags_ok_b al h = true ->
+  old_reach_b e al h rold = true ->
+  patch e al h rold rnew = Some h' ->
+  forall k, rreach h' rold k -> In k (map fst al) \/ length h <= k < length h'.
+Proof. exact DiffBuild_proofs.patch_independent. Qed.
+Print Assumptions C10_patch_independent.
+
+(* 3. an aligned pair whose callable, tags and contents are aligned_or_equal records nothing *)
+Theorem C10_unchanged_gives_no_changes : forall al memo p no nn,
+  node_unchanged_b al no nn = true -> node_changes al memo p no nn = [].
+Proof. exact DiffBuild_proofs.unchanged_gives_no_changes. Qed.
+Print Assumptions C10_unchanged_gives_no_changes.
+
+(* 4. necessity: a tuple aligned although an element changed (same_kind's tuple condition dropped),
+   two new objects aligned with one old object (one-to-one dropped), a tag under an integer key
+   (align_tags_ok_b dropped): in each case every other hypothesis holds and the conclusion fails *)
+Theorem C10_patch_needs_tuple_condition :
+  exists e al h rold rnew h',
+    wf_b e h = true /\ heap_ok_b h = true /\
+    alignment_ok_no_tuple al h rold rnew = true /\
+    align_tags_ok_b al h = true /\ old_reach_b e al h rold = true /\
+    new_reach_b e al h rnew = true /\ disjoint_b e h rold rnew = true /\
+    patch e al h rold rnew = Some h' /\
+    same_graph h' rold h rnew = false /\
+    ~ graph_iso h' rold h rnew.
+Proof. exact DiffBuild_proofs.patch_needs_tuple_condition. Qed.
+Print Assumptions C10_patch_needs_tuple_condition.
+
+Theorem C10_patch_needs_one_to_one :
+  exists e al h rold rnew h',
+    wf_b e h = true /\ heap_ok_b h = true /\
+    alignment_ok_not_1to1 al h rold rnew = true /\
+    align_tags_ok_b al h = true /\ old_reach_b e al h rold = true /\
+    new_reach_b e al h rnew = true /\ disjoint_b e h rold rnew = true /\
+    patch e al h rold rnew = Some h' /\
+    same_graph h' rold h rnew = false /\
+    ~ graph_iso h' rold h rnew.
+Proof. exact DiffBuild_proofs.patch_needs_one_to_one. Qed.
+Print Assumptions C10_patch_needs_one_to_one.
+
+Theorem C10_patch_needs_named_tags :
+  exists e al h rold rnew h',
+    wf_b e h = true /\ heap_ok_b h = true /\
+    alignment_ok al h rold rnew = true /\
+    old_reach_b e al h rold = true /\
+    new_reach_b e al h rnew = true /\ disjoint_b e h rold rnew = true /\
+    align_tags_ok_b al h = false /\
+    patch e al h rold rnew = Some h' /\
+    same_graph h' rold h rnew = false /\
+    ~ graph_iso h' rold h rnew.
+Proof. exact DiffBuild_proofs.patch_needs_named_tags. Qed.
+Print Assumptions C10_patch_needs_named_tags.
+
+(* 5. EXAMPLES.  Old: root 1 = Config(f10, a0=S, a1=S, a2=7, a3="h") with a tag on a0, S = 0 shared.
+   New: root 4 = Config(f11, a0=S', a2=8, a4=L, a1=L) with tags on a0 and a2; S' = 2 aligned with S;
+   L = 3 a new list referenced twice.  Callable changed, a3 deleted, a4 added, a1 and a2 modified, a
+   tag added, the new shared object copied once (5) and referenced twice. *)
+Example C10_example_hypotheses :
+  wf_b rt_env rt_heap = true /\
+  heap_ok_b rt_heap = true /\
+  alignment_ok rt_al rt_heap (RP 1) (RP 4) = true /\
+  align_tags_ok_b rt_al rt_heap = true /\
+  old_reach_b rt_env rt_al rt_heap (RP 1) = true /\
+  new_reach_b rt_env rt_al rt_heap (RP 4) = true /\
+  disjoint_b rt_env rt_heap (RP 1) (RP 4) = true.
+Proof. vm_compute. repeat split. Qed.
+
+Example C10_example_changes :
+  build_changes rt_env rt_al rt_heap (RP 1) (RP 4) =
+  Some (rt_heap ++ [NList [RA (AInt 5)]],
+        [CModify [] LFn (RA (ASym 11%N));
+         CAddTag [] 2%N 21%N;
+         CModify [] (LAttr 1%N) (RP 5);
+         CModify [] (LAttr 2%N) (RA (AInt 8));
+         CDelete [] (LAttr 3%N);
+         CSet [] (LAttr 4%N) (RP 5)]).
+Proof. vm_compute. reflexivity. Qed.
+
+Example C10_example_patch :
+  patch rt_env rt_al rt_heap (RP 1) (RP 4) =
+  Some [ NBuildable BConfig 12%N [(KName 5%N, RA (AInt 1))] [];
+         NBuildable BConfig 11%N
+           [(KName 0%N, RP 0); (KName 1%N, RP 5); (KName 2%N, RA (AInt 8)); (KName 4%N, RP 5)]
+           [(KName 0%N, [20%N]); (KName 2%N, [21%N])];
+         NBuildable BConfig 12%N [(KName 5%N, RA (AInt 1))] [];
+         NList [RA (AInt 5)];
+         NBuildable BConfig 11%N
+           [(KName 0%N, RP 2); (KName 2%N, RA (AInt 8)); (KName 4%N, RP 3); (KName 1%N, RP 3)]
+           [(KName 0%N, [20%N]); (KName 2%N, [21%N])];
+         NList [RA (AInt 5)] ].
+Proof. vm_compute. reflexivity. Qed.
+
+Example C10_example_same_graph :
+  match patch rt_env rt_al rt_heap (RP 1) (RP 4) with
+  | Some h' => same_graph h' (RP 1) rt_heap (RP 4)
+  | None => false
+  end = true.
+Proof. vm_compute. reflexivity. Qed.
+
+(* the diff of a configuration with its deep copy under the identity alignment is empty *)
+Example C10_identity_alignment_example :
+  alignment_ok id_al id_heap (RP 2) (RP 5) = true /\
+  forallb (fun ij => match nth_error id_heap (fst ij), nth_error id_heap (snd ij) with
+                     | Some no, Some nn => node_unchanged_b id_al no nn
+                     | _, _ => false
+                     end) id_al = true /\
+  build_changes rt_env id_al id_heap (RP 2) (RP 5) = Some (id_heap, []).
+Proof. vm_compute. repeat split. Qed.
+
+(* an alignment the real DiffAlignment refuses ("would create a cycle") satisfies every hypothesis of
+   C10_patch_yields_new; the patched structure is isomorphic to new (hence acyclic), though the heap
+   is no longer in children-first order *)
+Example C10_cycle_alignment_example :
+  wf_b [] cyc_heap = true /\ heap_ok_b cyc_heap = true /\
+  alignment_ok cyc_al cyc_heap (RP 2) (RP 5) = true /\
+  align_tags_ok_b cyc_al cyc_heap = true /\ old_reach_b [] cyc_al cyc_heap (RP 2) = true /\
+  patch [] cyc_al cyc_heap (RP 2) (RP 5) =
+    Some [ NList [RP 1]; NList [RA (AInt 9)]; NList [RP 0];
+           NList [RA (AInt 9)]; NList [RP 3]; NList [RP 4] ] /\
+  match patch [] cyc_al cyc_heap (RP 2) (RP 5) with
+  | Some h' => same_graph h' (RP 2) cyc_heap (RP 5) && negb (wf_b [] h')
+  | None => false
+  end = true.
+Proof. vm_compute. repeat split. Qed.
